@@ -84,6 +84,21 @@ func c17Cases(tier string, seed uint64) []fw.Case {
 		cc := c17Case{Kind: "c11", Sub: c.Desc, Procs: 4, Reps: reps, Name: "c11/" + fw.HashBytes(c.Desc)}
 		cs = append(cs, fw.MkCase("c11", &cc))
 	}
+	// process sets with message flows (throw -> start event of a waiting process, throw -> catch events that
+	// register with the set one after the other), three concurrent set waiters
+	var psets []fw.Case
+	for _, c := range c18Cases("thorough", seed) {
+		var cc c18Case
+		json.Unmarshal(c.Desc, &cc)
+		if cc.Link != "none" && cc.Link != "waitcatch" && cc.Hook == 0.5 && (cc.Waits == "three" || cc.Waits == "twice") {
+			psets = append(psets, c)
+		}
+	}
+	for i := 0; i < n && len(psets) > 0; i++ {
+		c := psets[(i*7+rng.Intn(3))%len(psets)]
+		cc := c17Case{Kind: "pset", Sub: c.Desc, Procs: []int{4, 16}[i%2], Reps: reps, Name: "pset/" + fw.HashBytes(c.Desc)}
+		cs = append(cs, fw.MkCase("pset", &cc))
+	}
 	for i := 0; i < 4; i++ {
 		cc := c17Case{Kind: "locator", Procs: 16, Reps: reps, Name: fmt.Sprintf("locator/%d", i)}
 		cs = append(cs, fw.MkCase("locator", &cc))
@@ -436,6 +451,18 @@ func c17Run(c *c17Case, env *fw.Env, v *fw.V) {
 					}
 				}
 			})
+		case "pset":
+			var cc c18Case
+			json.Unmarshal(c.Sub, &cc)
+			fw.Rep(env, i, func(env *fw.Env) {
+				tmp := fw.NewV(fw.Case{})
+				c18Run(&cc, env, tmp)
+				for _, f := range tmp.Findings {
+					if f.Status == fw.Violation {
+						v.Violate("outcome-"+f.Rule, "process-set", "%s", f.Msg)
+					}
+				}
+			})
 		case "locator":
 			c17Locator(v)
 		case "objects":
@@ -467,7 +494,7 @@ func init() {
 			v.Nontrivial = true
 			return v
 		},
-		Rule:        "race-detector build (-race, halt_on_error=0, reports parsed from the log files): storm runs of every nesting-pair program and PRNG programs with, at every round, bursts of concurrent subscribe/unsubscribe churn, CloneVariables/CloneItems/GetVariable loops, waits with expiring contexts and stranger-event deliveries, hooks at 0.3, GOMAXPROCS 4 and 16; concurrent event-based-gateway, boundary-event-race and event-delivery workloads borrowed from C06/C10/C11; concurrent SetVariable/GetVariable/CloneVariables histories checked per key with porcupine; every workload repeated 3 (quick) / 25 (thorough) times, one process per workload; verdict = race reports with an engine frame (deduplicated by the pair of innermost /repo functions), engine panics, and storm-oracle violations; distinct = descriptor hash, all non-trivial",
+		Rule:        "race-detector build (-race, halt_on_error=0, reports parsed from the log files): storm runs of every nesting-pair program and PRNG programs with, at every round, bursts of concurrent subscribe/unsubscribe churn, CloneVariables/CloneItems/GetVariable loops, waits with expiring contexts and stranger-event deliveries, hooks at 0.3, GOMAXPROCS 4 and 16; concurrent event-based-gateway, boundary-event-race and event-delivery workloads borrowed from C06/C10/C11; process sets with message flows (instantiating throws, catch events registering with the set one after the other, concurrent set waiters) borrowed from C18; concurrent SetVariable/GetVariable/CloneVariables histories checked per key with porcupine; every workload repeated 3 (quick) / 25 (thorough) times, one process per workload; verdict = race reports with an engine frame (deduplicated by the pair of innermost /repo functions), engine panics, and storm-oracle violations; distinct = descriptor hash, all non-trivial",
 		WatchdogSec: 300,
 		MaxShards:   8,
 		Assumptions: []string{"a race is only reported on schedules that occur; the evidence lists the deduplicated access pairs seen, not 'race-free'", "reports whose two accesses are both innermost in third-party code on library-private state are listed as third_party_reports and are not verdicts"},
